@@ -80,9 +80,9 @@ pub fn gen_single(rng: &mut Rng) -> Case {
     let mlen = c.memory.len() as i64;
     let plen = c.parent.as_ref().map(|m| m.len() as i64).unwrap_or(0);
     // around the bound n; now and then an in-range value plus a multiple of 2^8 / 2^16 / 2^32 (aliases under a truncating cast) or its negation
-    let near = |rng: &mut Rng, n: i64| -> Word { match rng.below(8) { 0 => n, 1 => n - 1, 2 => n + 1, 3 => 0, 4 => -1,
+    let near = |rng: &mut Rng, n: i64| -> Word { match rng.below(8) { 0 => n, 1 => n.wrapping_sub(1), 2 => n.wrapping_add(1), 3 => 0, 4 => -1,
         5 => rng.range(0, n.max(1)).wrapping_add(*rng.pick(&[1i64 << 8, 1 << 16, 1 << 32, 1 << 33, 3 << 32, 0x7FFF_FFFF_0000_0000, i64::MIN])),
-        6 => -rng.range(1, n.max(1)), _ => rng.range(0, n.max(1)) } };
+        6 => rng.range(1, n.max(1)).wrapping_neg(), _ => rng.range(0, n.max(1)) } };
     // op specific, mostly valid operands (70 %), otherwise arbitrary words
     if rng.chance(7, 10) {
         match op {
@@ -121,7 +121,7 @@ pub fn gen_single(rng: &mut Rng) -> Case {
             Op::Memory(asm::Memory::Free) => extra.push(near(rng, mlen)),
             Op::Memory(asm::Memory::Load) => extra.push(near(rng, mlen)),
             Op::Memory(asm::Memory::Store) => { extra.push(rng.word()); extra.push(near(rng, mlen)); }
-            Op::Memory(asm::Memory::LoadRange) => { let a = near(rng, mlen); extra.push(a); extra.push(near(rng, (mlen - a).min(room as i64 + 1))); }
+            Op::Memory(asm::Memory::LoadRange) => { let a = near(rng, mlen); extra.push(a); extra.push(near(rng, mlen.wrapping_sub(a).min(room as i64 + 1))); }
             Op::Memory(asm::Memory::StoreRange) => {
                 let n = rng.range(0, 5);
                 extra.extend((0..n).map(|_| rng.word()));
@@ -129,7 +129,7 @@ pub fn gen_single(rng: &mut Rng) -> Case {
                 extra.push(near(rng, mlen - n));
             }
             Op::ParentMemory(asm::ParentMemory::Load) => extra.push(near(rng, plen)),
-            Op::ParentMemory(asm::ParentMemory::LoadRange) => { let a = near(rng, plen); extra.push(a); extra.push(near(rng, (plen - a).min(room as i64 + 1))); }
+            Op::ParentMemory(asm::ParentMemory::LoadRange) => { let a = near(rng, plen); extra.push(a); extra.push(near(rng, plen.wrapping_sub(a).min(room as i64 + 1))); }
             _ => {}
         }
     } else {
@@ -389,7 +389,7 @@ pub fn gen_compute(rng: &mut Rng) -> Case {
 // ---------------------------------------------------------------- family: state reads
 pub fn gen_state(rng: &mut Rng) -> Case {
     let (sols, ix) = some_solutions(rng);
-    if rng.chance(1, 20) { let d = rng.range(-1, 1); let mut c = exact_fill_state(rng, d); c.family = "state"; return c; }
+    if rng.chance(1, 120) { let d = rng.range(-1, 1); let mut c = exact_fill_state(rng, d); c.family = "state"; return c; }
     let mut c = Case { family: "state", sols, index: ix, view_seed: rng.next(), ..Default::default() };
     c.pre_mode = *rng.pick(&[ViewMode::Exact, ViewMode::Exact, ViewMode::Exact, ViewMode::Fewer, ViewMode::More, ViewMode::Empty, ViewMode::Fail]);
     c.post_mode = *rng.pick(&[ViewMode::Exact, ViewMode::Exact, ViewMode::Fewer, ViewMode::More, ViewMode::Fail]);
@@ -568,7 +568,9 @@ pub fn run(a: &Args) {
         id += 1;
     };
     // corpus: fixed regression cases always run first
-    for c in corpus() { let en = fams.iter().any(|f| f == c.family || f == "corpus"); emit(&mut out, &c, en); }
+    // (ids are kept when the corpus is switched off for the later batches of a large run)
+    let no_corpus = a.extra.iter().any(|x| x == "--no-corpus");
+    for c in corpus() { let en = !no_corpus && fams.iter().any(|f| f == c.family || f == "corpus"); emit(&mut out, &c, en); }
     for i in 0..a.count as u64 {
         let mut rng = Rng::for_case(a.seed, 5, i);
         let fam = rng.pick(&fams).clone();
